@@ -332,6 +332,10 @@ def items(tier, rng):
             for func in ("bellman_ford", "dijkstra_edges"):
                 out.append({"name": func + "_" + nm, "harness": "h_equiv", "max_paths": cap, "extra_witness": True,
                             "params": {"func": func, "n": n, "pot": pot, "weighted": True, "sym_presence": False, "target": target}})
+        # node 0 as the TARGET (from the last node): 0 is falsy, "no target" must be `is None`
+        for func in ("bellman_ford", "dijkstra_edges"):
+            out.append({"name": func + "_to0_" + nm, "harness": "h_equiv", "max_paths": cap, "extra_witness": True,
+                        "params": {"func": func, "n": n, "pot": pot, "weighted": True, "sym_presence": False, "source": n - 1, "target": 0}})
         for af in (False, True):
             out.append({"name": "kruskal_" + nm, "harness": "h_equiv", "max_paths": cap, "extra_witness": True,
                         "params": {"func": "kruskal", "n": n, "pot": pot, "weighted": True, "sym_presence": False, "allow_forest": af}})
@@ -343,6 +347,8 @@ def items(tier, rng):
         for target in (None, 2):
             out.append({"name": func, "harness": "h_equiv", "split": 5,
                         "params": {"func": func, "n": 3, "pot": pot3 + [(0, 1), (2, 1)], "weighted": False, "sym_presence": True, "target": target}})
+        out.append({"name": func + "_to0", "harness": "h_equiv", "split": 5,
+                    "params": {"func": func, "n": 3, "pot": pot3 + [(0, 1), (2, 1)], "weighted": False, "sym_presence": True, "source": 2, "target": 0}})
     for func in ("strongly_connected_components_edges", "topological_sort_edges"):
         out.append({"name": func, "harness": "h_equiv", "split": 5, "params": {"func": func, "n": 3, "pot": pot3 + [(1, 0)], "weighted": False, "sym_presence": True}})
         if not q:
